@@ -474,12 +474,182 @@ def _ladder(ctx, m, fn) -> None:
                f"(units are tested from the largest to the smallest and a count is rounded up only inside its own unit)", m.loc(fn))
 
 
+def _human_tabulate(ctx, m, fn):
+    """HUMAN.tabulated: DifferenceFormatter.format run by the checker's interpreter on difference stubs (components years .. seconds
+    on both sides of every threshold, inverted or not) x is_now x absolute x locales with and without the 'few seconds' form and
+    with and without special relative forms; the locale stub records the keys asked for and answers with templates that show
+    what they were filled with.  The phrase must be the one the rule says: the largest non-zero unit, rounded up only inside its
+    own unit (months > 6, days >= 27, days > 3, hours >= 22), never zero, 'a few seconds' up to 10 s where the locale has
+    it, no marker when absolute, future / from_now / after exactly for an inverted difference, the plural class of the count.
+    Returns the (key template, use) pairs requested, for the key-closure rule; None when outside the interpreter."""
+    from ..rules import minieval
+    S = minieval.Stub
+    used: set[tuple[str, str]] = set()
+
+    class Tpl(S):
+        pass
+
+    def spec(d, is_now, absolute, few, special):
+        days = d["weeks"] * 7 + d["remaining_days"]
+        if d["years"] > 0:
+            unit, count = "year", d["years"] + (1 if d["months"] > 6 else 0)
+        elif d["months"] == 11 and days > 15:
+            unit, count = "year", 1
+        elif d["months"] > 0:
+            unit, count = "month", d["months"] + (1 if days >= 27 else 0)
+        elif d["weeks"] > 0:
+            unit, count = "week", d["weeks"] + (1 if d["remaining_days"] > 3 else 0)
+        elif d["remaining_days"] > 0:
+            unit, count = "day", d["remaining_days"] + (1 if d["hours"] >= 22 else 0)
+        elif d["hours"] > 0:
+            unit, count = "hour", d["hours"]
+        elif d["minutes"] > 0:
+            unit, count = "minute", d["minutes"]
+        elif 10 < d["remaining_seconds"] <= 59:
+            unit, count = "second", d["remaining_seconds"]
+        elif few:
+            if absolute:
+                return "FEW"
+            k = "custom." + (("from_now" if d["invert"] else "ago") if is_now else ("after" if d["invert"] else "before"))
+            return f"[{k}](FEW)"
+        else:
+            unit, count = "second", d["remaining_seconds"]
+        count = count or 1
+        if absolute:
+            return f"[translations.units.{unit}.<plural>]({count})"
+        fut = d["invert"]
+        if is_now:
+            return f"[translations.relative.{unit}.{'future' if fut else 'past'}.<plural>]({count})"
+        if special:
+            time = f"[custom.units_relative.{unit}.{'future' if fut else 'past'}/<plural>]({count})"
+        else:
+            time = f"[translations.units.{unit}.<plural>]({count})"
+        return f"[custom.{'after' if fut else 'before'}]({time})"
+    grid = []
+    zero = dict(years=0, months=0, weeks=0, remaining_days=0, hours=0, minutes=0, remaining_seconds=0)
+    for y, mo in ((1, 0), (1, 6), (1, 7), (2, 11), (0, 11), (0, 6), (0, 1)):
+        for wk, rd in ((0, 0), (2, 1), (2, 2), (3, 5), (3, 6)):
+            grid.append(dict(zero, years=y, months=mo, weeks=wk, remaining_days=rd, hours=23, minutes=59, remaining_seconds=59))
+    for wk, rd, h in ((1, 0, 0), (1, 3, 23), (1, 4, 0), (3, 6, 0), (0, 1, 21), (0, 1, 22), (0, 6, 23), (0, 3, 0)):
+        grid.append(dict(zero, weeks=wk, remaining_days=rd, hours=h, minutes=30, remaining_seconds=30))
+    for h, mi, sec in ((1, 0, 0), (23, 59, 59), (0, 1, 0), (0, 59, 59), (0, 0, 59), (0, 0, 11), (0, 0, 10), (0, 0, 1), (0, 0, 0)):
+        grid.append(dict(zero, hours=h, minutes=mi, remaining_seconds=sec))
+    bad, n = [], 0
+    try:
+        funcs = {st.name: st for st in m.top() if isinstance(st, ast.FunctionDef)}
+        meths = m.methods("DifferenceFormatter")
+        for comp in grid:
+            for invert in (False, True):
+                for is_now in (True, False):
+                    for absolute in (False, True):
+                        for few in (True, False):
+                            for special in ((False, True) if (not is_now and not absolute) else (False,)):
+                                d = dict(comp, invert=invert)
+
+                                def get(key, _few=few, _special=special):
+                                    if key == "custom.units.few_second":
+                                        used.add((key, "value"))
+                                        return "FEW" if _few else None
+                                    if key.startswith("custom.units_relative."):
+                                        used.add((key, "value"))
+                                        if not _special:
+                                            return None
+                                        return {"<plural>": Tpl(format=lambda x, _k=key: f"[{_k}/<plural>]({x})")}
+
+                                    def fmt(x, _k=key):
+                                        used.discard((_k, "value"))
+                                        used.add((_k, "format"))
+                                        return f"[{_k}]({x})"
+                                    if (key, "format") not in used:
+                                        used.add((key, "value"))
+                                    return Tpl(format=fmt)
+                                loc = S(get=get, plural=lambda c: "<plural>", _eqkey="loc")
+                                selfo = minieval.Obj(_methods=meths, _props=set(), _ctor=None, _natives={}, _locale=loc)
+                                glob = {"Locale": minieval.Stub(load=lambda x: x), "t": S(cast=lambda ty, v: v), "str": str}
+                                n += 1
+                                got = minieval.call(fn, [selfo, S(**d), is_now, absolute, loc], {}, {**funcs, "$globals": glob})
+                                want = spec(d, is_now, absolute, few, special)
+                                if got != want:
+                                    bad.append(f"{ {k: v for k, v in d.items() if v} } is_now={is_now} absolute={absolute}" + (" (locale without 'a few seconds')" if not few else "")
+                                               + (" (locale with special relative forms)" if special else "") + f": {got!r} (expected {want!r})")
+    except (core.Unsupported, KeyError, TypeError, AttributeError, IndexError, ValueError, minieval.Raised, RecursionError) as e:
+        ctx.unverified("HUMAN.tabulated", "DifferenceFormatter.format", f"outside the checker's interpreter: {type(e).__name__}: {e}", m.loc(fn))
+        return None
+    ctx.ob("HUMAN.tabulated", "DifferenceFormatter.format", not bad, f"{n} (difference, is_now, absolute, locale shape) cases: " + (f"wrong: {bad[:3]}" if bad else
+           "always the phrase of the largest unit, rounded inside its unit, with the marker of the direction"), m.loc(fn))
+    if bad:
+        return None
+    ctx.established(("DIRECTION", "LADDER"), "format[", "HUMAN.tabulated")
+    ctx.established(("DIRECTION", "LADDER"), "DifferenceFormatter.format", "HUMAN.tabulated")
+    return sorted(used)
+
+
+def _inwords_tabulate(ctx) -> None:
+    """INWORDS.tabulated: Duration.in_words and Interval.in_words run by the checker's interpreter on component stubs (positive,
+    negative, zero, sub-second only) with a recording locale: one part per non-zero unit from the largest to the smallest -
+    key units.<unit>.<plural of |count|> filled with the signed count -, joined by the separator; a sub-second length as
+    seconds with two decimals under plural(1), nothing at all as 0 microseconds under plural(0); the locale asked for, or the
+    process-wide one when none is given."""
+    from ..rules import minieval
+    S = minieval.Stub
+    dm, im = pmod("duration"), pmod("interval")
+    dmeths = dm.methods("Duration")
+    dfuncs = {st.name: st for st in dm.top() if isinstance(st, ast.FunctionDef)}
+    comps = ["years", "months", "weeks", "remaining_days", "hours", "minutes", "remaining_seconds"]
+    units = dict(zip(comps, UNITS))
+    cases = [dict(years=1, months=2, weeks=3, remaining_days=4, hours=5, minutes=6, remaining_seconds=7, microseconds=8), dict(years=-1, months=0, weeks=0, remaining_days=-2, hours=0, minutes=0, remaining_seconds=-30, microseconds=0),
+             dict(years=0, months=0, weeks=0, remaining_days=0, hours=0, minutes=0, remaining_seconds=0, microseconds=250000), dict(years=0, months=0, weeks=0, remaining_days=0, hours=0, minutes=0, remaining_seconds=0, microseconds=-1500),
+             dict(years=0, months=0, weeks=0, remaining_days=0, hours=0, minutes=0, remaining_seconds=0, microseconds=0), dict(years=0, months=0, weeks=1, remaining_days=0, hours=0, minutes=1, remaining_seconds=0, microseconds=999)]
+    for mod_, cls in ((dm, "Duration"), (im, "Interval")):
+        meths = mod_.methods(cls)
+        if "in_words" not in meths:
+            continue
+        bad, n = [], 0
+        try:
+            for c in cases:
+                for given, sep in ((None, " "), ("fr", ", ")):
+                    loaded = []
+
+                    def mkloc(name):
+                        loaded.append(name)
+                        return S(translation=lambda key: S(format=lambda x, _k=key: f"[{_k}]({x})"), plural=lambda cnt: f"<plural({cnt})>", _eqkey=name)
+                    pend = S(get_locale=lambda: "DEFAULT", locale=mkloc)
+                    glob = {"pendulum": pend, "Locale": S(load=mkloc), "abs": abs}
+                    o = minieval.Obj(_methods=meths, _props=set(), _ctor=None, _natives={}, _super=(dmeths, {**dfuncs, "$globals": glob}), **c)
+                    funcs = {st.name: st for st in mod_.top() if isinstance(st, ast.FunctionDef)}
+                    n += 1
+                    got = minieval.call(meths["in_words"], [o] + ([given] if given else []), ({"separator": sep} if given else {}), {**funcs, "$globals": glob})
+                    parts = [f"[units.{units[k]}.<plural({abs(c[k])})>]({c[k]})" for k in comps if abs(c[k]) > 0]
+                    if not parts:
+                        parts = [f"[units.second.<plural(1)>]({abs(c['microseconds']) / 1e6:.2f})"] if abs(c["microseconds"]) > 0 else ["[units.microsecond.<plural(0)>](0)"]
+                    want = sep.join(parts)
+                    label = f"{cls}({ {k: v for k, v in c.items() if v} }).in_words({'locale=' + repr(given) + ', separator=' + repr(sep) if given else ''})"
+                    if got != want:
+                        bad.append(f"{label}: {got!r} (expected {want!r})")
+                    elif loaded != [given or "DEFAULT"]:
+                        bad.append(f"{label}: loads the locale(s) {loaded} (expected {[given or 'the process-wide locale']})")
+        except (core.Unsupported, KeyError, TypeError, AttributeError, IndexError, ValueError, minieval.Raised, RecursionError) as e:
+            ctx.unverified("INWORDS.tabulated", f"{cls}.in_words", f"outside the checker's interpreter: {type(e).__name__}: {e}", mod_.loc(meths["in_words"]))
+            continue
+        ctx.ob("INWORDS.tabulated", f"{cls}.in_words", not bad, f"{n} cases: " + (f"wrong: {bad[:3]}" if bad else "the wording rule holds on every case"), mod_.loc(meths["in_words"]))
+        if not bad:
+            ctx.established(("INWORDS", "LOCALE.default"), f"{cls}.in_words", "INWORDS.tabulated")
+
+
 def run(ctx) -> None:
     ctx.explanation = EXPLANATION
+    ctx.step(_inwords_tabulate, ctx)
+    m0 = pmod("formatting.difference_formatter")
+    keys_by_value = ctx.step(_human_tabulate, ctx, m0, m0.func("DifferenceFormatter.format"))
     m, fn, paths = format_paths(ctx)
+    if keys_by_value:
+        # the keys the formatter asks a locale for, as observed on every case of the tabulation (independent of how format() is written)
+        paths_for_closure = [({}, None, None, None, list(keys_by_value), None)]
+    else:
+        paths_for_closure = paths
     ctx.step(_direction, ctx, m, fn, paths)
     ctx.step(_ladder, ctx, m, fn)
-    ctx.step(_closure, ctx, paths)
+    ctx.step(_closure, ctx, paths_for_closure)
     hm = pmod("helpers")
     r = core.returns(hm.func("format_diff"))
     ctx.ob("FORWARD", "helpers.format_diff", len(r) == 1 and nun(r[0].value) == "difference_formatter.format(diff, is_now, absolute, locale)",
